@@ -442,6 +442,37 @@ func (t *trieRun) genCase(c *Ctx, r *RNG, id string) *TrieCase {
 		if t.encs != nil {
 			tc.Enc = t.encs[r.Intn(len(t.encs))]
 		}
+		if r.Intn(16) == 0 {
+			// directed shape: more than 64 leaves whose values are all non-empty except a few among
+			// the first 64 (a presence word with gaps followed by fully populated ones); needs an
+			// encoder with empty encodings (RAW) and every key kept
+			n := 130 + r.Intn(130)
+			keys := make([]string, n)
+			ids := make([]uint64, n)
+			for i := range keys {
+				keys[i] = fmt.Sprintf("k%03d", i)
+				for {
+					ids[i] = r.U64()
+					if s16(ids[i]) != "" {
+						break
+					}
+				}
+			}
+			for g := 0; g < 1+r.Intn(3); g++ {
+				for {
+					id := r.U64()
+					if s16(id) == "" {
+						ids[r.Intn(64)] = id
+						break
+					}
+				}
+			}
+			tc.Keys, tc.Kind, tc.IDs, tc.VKind, tc.Enc = keys, "gaps-then-full-words", ids, "sparse-empty", "RAW"
+			if tc.Opt[0] != 0 && (t.optFilter == nil || t.optFilter([4]int8{0, tc.Opt[1], tc.Opt[2], tc.Opt[3]})) {
+				tc.Opt[0] = 0
+			}
+			tc.Queries = genQueries(r, tc.Keys, t.qbudget)
+		}
 		if t.onlyKeys {
 			tc.Queries = append([]string{}, tc.Keys...)
 		}
